@@ -592,6 +592,63 @@ func R22() Rule {
 					}
 				}
 			}
+			// a recursive removal is for buckets only: an object name that is a directory of other objects
+			// (`reports/2023`) must not take them with it
+			for _, f := range storeScope(P, del) {
+				for _, ci := range core.AllCalls(f) {
+					if !ci.IsFunc("os", "RemoveAll") {
+						continue
+					}
+					isEmptyNameTest := func(v ssa.Value) bool {
+						bin, isBin := core.Resolve(v).(*ssa.BinOp)
+						if !isBin || bin.Op != token.EQL {
+							return false
+						}
+						if sv, isS := core.ConstString(bin.Y); isS && sv == "" && isStringType(bin.X.Type()) {
+							return true
+						}
+						sv, isS := core.ConstString(bin.X)
+						return isS && sv == "" && isStringType(bin.Y.Type())
+					}
+					bucketOnly := P.InAllContexts(ci.Instr, nil, nil, func(at ssa.Instruction, _ []ssa.Value) bool {
+						for _, fct := range core.FactsAt(at.Block()) {
+							// a flag computed by the caller: `removePath(f, filename == "")` … `if isBucket {`
+							if _, isParam := core.Resolve(fct.Cond).(*ssa.Parameter); isParam && fct.Polarity && isBoolType(fct.Cond.Type()) {
+								if P.AllOrigins(fct.Cond, nil, isEmptyNameTest) {
+									return true
+								}
+							}
+							l, op, r, isCmp := cmpNorm(fct)
+							if !isCmp || op != token.EQL {
+								continue
+							}
+							if sv, isS := core.ConstString(r); isS && sv == "" && isStringType(l.Type()) {
+								return true
+							}
+							if sv, isS := core.ConstString(l); isS && sv == "" && isStringType(r.Type()) {
+								return true
+							}
+						}
+						return false
+					})
+					c.Check(bucketOnly, "R22", "filestore.Delete/recursive-removal-only-for-buckets", ci.Instr.Pos(), "os.RemoveAll is reached only when the object name is empty (bucket deletion)", "filestore.Delete removes recursively for an object name: deleting a name that is a path prefix of other objects deletes them too (the memory store deletes exactly one object)")
+				}
+			}
+			// Get classifies the name through GetMeta (missing / directory ⇒ not found) before it reads content
+			if get := storeMethod(P, "filestore", "Get"); get != nil {
+				gscope := storeScope(P, get)
+				gset := setOf(gscope)
+				var metaCall ssa.Instruction
+				for _, ci := range core.AllCalls(get) {
+					if ci.Static != nil && core.FuncName(ci.Static) == "(*filestore).GetMeta" {
+						metaCall = ci.Instr
+					}
+				}
+				for _, ci := range core.CallsIn(gscope, func(ci *core.CallInfo) bool { return ci.IsFunc("os", "ReadFile") || ci.IsFunc("os", "Open") }) {
+					okOrd := metaCall != nil && P.InterDominates(get, metaCall, ci.Instr, gset)
+					c.Check(okOrd, "R22", "filestore.Get/metadata-lookup-before-content-read", ci.Instr.Pos(), "the content is read only after GetMeta has classified the name", "filestore.Get reads the content file before GetMeta has classified the name: a name that is a directory of other objects answers 500 (EISDIR) where the memory store answers 404")
+				}
+			}
 			c.Check(rmContent && rmMeta, "R22", "filestore.Delete/removes-content-and-sidecar", del.Pos(), "removes the content file and its sidecar", "filestore.Delete leaves the content file or the metadata sidecar behind: a re-created object inherits stale metadata")
 			// ReadMeta tolerates a missing sidecar
 			rm := storeMethod(P, "filestore", "ReadMeta")
